@@ -2385,7 +2385,6 @@ func (s *Server) serveConnCounted(c net.Conn, countConcurrency bool) error {
 	previousWriteTimeout := time.Duration(0)
 
 	ctx := s.acquireCtx(c)
-	ctx.connTime = connTime
 	isTLS := ctx.IsTLS()
 	var (
 		br *bufio.Reader
@@ -2636,6 +2635,9 @@ func (s *Server) serveConnCounted(c net.Conn, countConcurrency bool) error {
 			ctx.Response.Header.SetServer(serverName)
 		}
 		ctx.connID = connID
+		// ctx may have been replaced since the previous request (after a
+		// timed out handler, or while waiting with ReduceMemoryUsage).
+		ctx.connTime = connTime
 		ctx.connRequestNum = connRequestNum
 		ctx.time = time.Now()
 
